@@ -252,6 +252,6 @@ func genC07(t *testing.T) {
 		if r.IntN(2) == 0 {
 			sc = slices.DeleteFunc(slices.Clone(sc), func(m string) bool { return m[0] == 'C' })
 		}
-		run(&caseT{Site: st + "/" + mode, Stage: st, Cap: r.IntN(9), Mode: mode, Inputs: [][]int{in}, Fail: fail, FSeed: r.Uint64() % 1000, Script: sc, End: "complete", Tick: tick})
+		run(&caseT{Site: st + "/" + mode, Stage: st, Cap: wide(r, 9, 16, 64), Mode: mode, Inputs: [][]int{in}, Fail: fail, FSeed: r.Uint64() % 1000, Script: sc, End: "complete", Tick: tick})
 	}
 }
